@@ -567,7 +567,7 @@ class C01(Prop):
             for w, tag in ((2, 0xfd), (4, 0xfe), (8, 0xff)):
                 if v < 256 ** w:
                     out.append(('c01.varint.de', (bytes([tag]) + v.to_bytes(w, 'little') + b'\xaa\xbb').hex()))
-        return out
+        return list(dict.fromkeys(out))          # no duplicates (e.g. the empty tail of every fill pattern)
 
     def varint_cases(self, tier, shard, nshards):
         for j, (op, arg) in enumerate(self.varint_domain(tier)):
